@@ -31,3 +31,14 @@ Check C15_rec_agree : forall comp n m,
 Check C15_bw_halt_agree : forall sw comp d d',
   cant_halt_sw sw comp d <> Ok BwStepLimit -> cant_halt_sw sw comp d' <> Ok BwStepLimit ->
   cant_halt_sw sw comp d' = cant_halt_sw sw comp d.
+Check C15_bw_blank_agree : forall sw comp d d',
+  cant_blank_sw sw comp d <> Ok BwStepLimit -> cant_blank_sw sw comp d' <> Ok BwStepLimit ->
+  cant_blank_sw sw comp d' = cant_blank_sw sw comp d.
+Check C15_bw_spin_agree : forall sw comp d d',
+  cant_spin_out_sw sw comp d <> Ok BwStepLimit -> cant_spin_out_sw sw comp d' <> Ok BwStepLimit ->
+  cant_spin_out_sw sw comp d' = cant_spin_out_sw sw comp d.
+Check C15_seg_agree : forall prog params goal s s',
+  2 <= s -> 2 <= s' ->
+  sg_segment_cant_reach prog params s goal <> Ok SgrSegmentLimit ->
+  sg_segment_cant_reach prog params s' goal <> Ok SgrSegmentLimit ->
+  sg_segment_cant_reach prog params s' goal = sg_segment_cant_reach prog params s goal.
